@@ -115,7 +115,7 @@ class _NpWithRandom:
 
 
 @contract("C07", "make_subset_data", [MD + "make_subset_data", MD + "flat", MD + "copy_metadata"],
-          bounded="2x3 image with symbolic pixels; every selection of 1-3 distinct flat indices from a scripted generator")
+          bounded="2x3 image with symbolic pixels, at the origin or as a region of interest; selections of 1-3 distinct flat indices from a scripted generator")
 def make_subset(c):
     """subset selection asks for distinct pixels (no replacement) among all x*y pixels, keeps the values, coordinates and metadata
     of the selected pixels, remembers the original axes, returns the input itself when no pixel count is given, and modifies nothing"""
@@ -124,6 +124,9 @@ def make_subset(c):
         for j in range(3):
             vals[i, j] = c.real("p%d%d" % (i, j))
     im = data_grid(vals, spacing=(0.1, 0.25), medium_index=1.33, illum_wavelen=0.66, illum_polarization=(1, 0), noise_sd=0.05)
+    # the image may be a region of interest: its axes need not start at 0
+    ox, oy = c.choice("image_origin", [(0.0, 0.0), (0.3, 1.25)])
+    im = im.assign_coords(x=im.x.values + ox, y=im.y.values + oy)
     im.name = 'img'
     attrs_before = dict(im.attrs)
     c.ensures("no-count-returns-input", c.call(make_subset_data, im) is im)
@@ -143,11 +146,11 @@ def make_subset(c):
     for k, f in enumerate(sel):
         i, j = divmod(f, 3)
         c.ensures("selected-values", c.eq(sub.values[k], vals[i, j]))
-        c.ensures("selected-coordinates", c.and_(c.eq(float(sub.x.values[k]), i * 0.1), c.eq(float(sub.y.values[k]), j * 0.25)))
+        c.ensures("selected-coordinates", c.and_(c.eq(float(sub.x.values[k]), ox + i * 0.1), c.eq(float(sub.y.values[k]), oy + j * 0.25)))
     c.ensures("metadata-kept", c.and_(sub.name == 'img', c.eq(sub.attrs['medium_index'], 1.33), c.eq(sub.attrs['noise_sd'], 0.05)))
     od = sub.attrs.get('original_dims')
-    c.ensures("original-axes-remembered", od is not None and set(od) == {'x', 'y', 'z'} and list(od['x']) == [0.0, 0.1]
-              and list(od['y']) == [0.0, 0.25, 0.5])
+    c.ensures("original-axes-remembered", od is not None and set(od) == {'x', 'y', 'z'}
+              and bool(np.allclose(np.asarray(od['x'], dtype=float), [ox, ox + 0.1])) and bool(np.allclose(np.asarray(od['y'], dtype=float), [oy, oy + 0.25, oy + 0.5])))
     c.ensures("input-untouched", c.and_('original_dims' not in im.attrs, set(im.attrs) == set(attrs_before), im.shape == (1, 2, 3),
                                         c.eq(im.values[0], vals)))
 
@@ -260,3 +263,27 @@ def _integer_grid(coords):
 for _cs in ("spherical", "cylindrical", "cartesian"):
     contract("C07", "integer_typed_grid_" + _cs, [IF + "ImageFormation._transform_to_desired_coordinates", SI + "calc_holo"],
              bounded="2x3 grid with integer spacing 1 (integer-typed coordinates)", timeout_ms=60000)(_integer_grid(_cs))
+
+
+@contract("C07", "detector_points_leaves_its_arguments_alone", [MD + "detector_points"])
+def detector_points_frame(c):
+    """detector_points builds the detector from what it is given and modifies none of it: a coordinate dictionary passed by the caller
+    keeps exactly its keys and values (the default third coordinate is added to the detector, not to the caller's dictionary)"""
+    A = (lambda v: np.array(v, dtype=object if c.symbolic else float))
+    xs, ys = [c.real("x0", sample=(-2, 2)), c.real("x1", sample=(-2, 2))], [c.real("y0", sample=(-2, 2)), c.real("y1", sample=(-2, 2))]
+    form = c.choice("given_as", ["dictionary without z", "dictionary with z", "polar dictionary without r", "keywords"])
+    if form == "dictionary without z":
+        given = {'x': A(xs), 'y': A(ys)}
+    elif form == "dictionary with z":
+        given = {'x': A(xs), 'y': A(ys), 'z': A([0.5, 0.25])}
+    elif form == "polar dictionary without r":
+        given = {'theta': np.array([0.3, 0.4]), 'phi': np.array([0.1, 0.2])}
+    else:
+        given = None
+    snapshot = None if given is None else {k: (id(v), np.array(v, copy=True)) for k, v in given.items()}
+    det = c.call(detector_points, coords=given) if given is not None else c.call(detector_points, x=A(xs), y=A(ys))
+    if form in ("dictionary without z", "keywords"):
+        c.ensures("default-z-on-the-detector", c.eq(det.z.values, np.zeros(2)))
+    if given is not None:
+        c.ensures("callers-dictionary-untouched", set(given) == set(snapshot) and all(id(given[k]) == snapshot[k][0]
+                                                                                      and c.truth(c.eq(given[k], snapshot[k][1])) for k in given))
